@@ -373,6 +373,161 @@ def child_features(case):
     return out
 
 
+def child_handshake(case):
+    '''Peer lists requested while verification handshakes (the real _should_drop_peer / _verify_peer) are suspended in a
+    scripted in-memory session, and after they ended well, badly or unreachable.'''
+    from exv import harness
+    import electrumx.server.peers as peersmod
+    from electrumx.lib.peer import Peer
+    from aiorpcx import NetAddress
+    harness.install_log_capture()
+    rng = random.Random(case['seed'])
+    tmp = scratch_dir('exv-c19h-')
+    out = {'evaluations': 0, 'counters': {}, 'sigs': [], 'violations': []}
+    c = out['counters']
+
+    def bump(k, n=1):
+        c[k] = c.get(k, 0) + n
+
+    class Clock:
+        now = NOW
+
+        @classmethod
+        def time(cls):
+            return cls.now
+    peersmod.time = Clock
+    orig_connect = peersmod.connect_rs
+    plans = {}          # host -> {'gate': Event, 'outcome': str, 'ip': str, 'at': str}
+
+    class FakeDB:
+        class state:
+            height = 40
+
+        @staticmethod
+        async def raw_header(h):
+            return bytes([h % 251]) * 80
+
+    class FakeSession:
+        def __init__(self, host, pm):
+            self.host, self.pm, self.plan = host, pm, plans[host]
+            self.sent_request_timeout = 30
+
+        def remote_address(self):
+            return NetAddress(self.plan['ip'], 50001)
+
+        async def send_request(self, method, args=()):
+            pl = self.plan
+            if method == pl['at']:
+                pl['suspended'] = True
+                await pl['gate'].wait()
+                if pl['outcome'] == 'bad':
+                    return 17                    # not the type the message calls for: BadPeerError
+                if pl['outcome'] == 'unreachable':
+                    raise ConnectionError('connection lost')
+            if method == 'server.version':
+                return ['ElectrumX 1.20', '1.4']
+            if method == 'blockchain.headers.subscribe':
+                return {'height': FakeDB.state.height, 'hex': '00'}
+            if method == 'blockchain.block.header':
+                return (bytes([args[0] % 251]) * 80).hex()
+            if method == 'server.features':
+                return {'hosts': {self.host: {'tcp_port': 50001}}, 'genesis_hash': self.pm.env.coin.GENESIS_HASH, 'protocol_min': '1.4',
+                        'protocol_max': '1.4.2', 'server_version': 'ElectrumX 1.20', 'pruning': None}
+            if method == 'server.peers.subscribe':
+                return []
+            return True
+
+    class FakeConnect:
+        def __init__(self, host, port, **kw):
+            self.host = host
+
+        async def __aenter__(self):
+            return FakeSession(self.host, FakeConnect.pm)
+
+        async def __aexit__(self, *a):
+            return False
+    peersmod.connect_rs = FakeConnect
+
+    async def main():
+        env = harness.make_env(tmp, PEER_DISCOVERY='on', REPORT_SERVICES='tcp://sv.own-server.org:50001')
+        for rnd in range(case['rounds']):
+            pm = peersmod.PeerManager(env, FakeDB)
+            FakeConnect.pm = pm
+            plans.clear()
+            truth = {}
+            ips = list(PUBLIC_V4 + PUBLIC_V6)
+            rng.shuffle(ips)
+            # recently verified peers, then candidates that are not: never verified, stale, good-but-due-for-a-retry
+            for k in range(rng.randrange(2, 8)):
+                host = f'good{k}.example.net'
+                p = Peer(host, mk_features(host), 'test', ip_addr=ips.pop(), last_good=Clock.now - rng.randrange(1, 3000))
+                pm.peers.add(p)
+                truth[host] = 'good'
+            cands = []
+            for k in range(rng.randrange(1, 6)):
+                kind = rng.choice(('never', 'never', 'stale', 'good'))
+                host = f'{kind}{k}.example.org' if rng.random() < 0.8 else rng.choice(ONION)
+                if host in truth:
+                    continue
+                lg = {'never': 0, 'stale': Clock.now - 5 * STALE, 'good': Clock.now - 100}[kind]
+                p = Peer(host, mk_features(host), 'test', ip_addr=None, last_good=lg)
+                pm.peers.add(p)
+                truth[host] = kind
+                if host.endswith('.onion'):
+                    pm.proxy = object()
+                plans[host] = {'gate': asyncio.Event(), 'outcome': rng.choice(('good', 'good', 'bad', 'unreachable')),
+                               'ip': ips.pop() if ips else '8.8.8.8',
+                               'at': rng.choice(('server.version', 'server.features', 'blockchain.headers.subscribe', 'server.peers.subscribe'))}
+                cands.append(p)
+            tasks = [asyncio.ensure_future(pm._should_drop_peer(p)) for p in cands]
+            for _ in range(20):
+                await asyncio.sleep(0)
+            suspended = [h for h, pl in plans.items() if pl.get('suspended')]
+            bump('handshakes_suspended', len(suspended))
+
+            def check(label):
+                for is_tor in (False, True):
+                    res = pm.on_peers_subscribe(is_tor)
+                    out['evaluations'] += 1
+                    bump('peer_lists_checked_during_or_after_handshakes')
+                    for (_ip, host, _details) in res:
+                        t = truth.get(host)
+                        if t in ('never', 'stale', 'bad'):
+                            out['violations'].append({'key': f'peers/not-recently-verified/{label}', 'what': f'{host} advertised although its state is {t} '
+                                                      f'({label})', 'witness': {'seed': case['seed'], 'round': rnd}})
+            check('verification-in-flight')
+            # release the handshakes one by one, in random order, looking at the list after each
+            order = list(plans)
+            rng.shuffle(order)
+            for h in order:
+                plans[h]['gate'].set()
+                for _ in range(30):
+                    await asyncio.sleep(0)
+                if plans[h].get('suspended'):
+                    oc = plans[h]['outcome']
+                    truth[h] = {'good': 'good', 'bad': 'bad', 'unreachable': truth[h]}[oc]
+                    bump(f'handshakes_ended_{oc}')
+                check('after-a-handshake-ended')
+            await asyncio.gather(*tasks, return_exceptions=True)
+            for t_ in tasks:
+                if not t_.cancelled() and t_.exception() is not None:
+                    out['violations'].append({'key': 'peers/verification-raised', 'what': f'_should_drop_peer raised {t_.exception()!r}',
+                                              'witness': {'seed': case['seed'], 'round': rnd}})
+            out['sigs'].append(digest(('handshake', case['seed'], rnd)))
+    try:
+        asyncio.run(main())
+    finally:
+        peersmod.connect_rs = orig_connect
+        shutil.rmtree(tmp, ignore_errors=True)
+    seen, vs = set(), []
+    for v in out['violations']:
+        if v['key'] not in seen:
+            seen.add(v['key'])
+            vs.append(v)
+    out['violations'] = vs
+    return out
+
+
 def run(tier, seed, replay=None):
     rep = Report(PID, tier, seed, 'exploration')
     thorough = tier == 'thorough'
@@ -380,7 +535,12 @@ def run(tier, seed, replay=None):
     rep.absorb(run_cases(child_population, cases, watchdog=600), 'population')
     fcases = [{'seed': seed * 2003 + i, 'n': 4000 if thorough else 500} for i in range(32)]
     rep.absorb(run_cases(child_features, fcases, watchdog=600), 'features')
+    hcases = [{'seed': seed * 3001 + i, 'rounds': 60 if thorough else 12} for i in range(16)]
+    rep.absorb(run_cases(child_handshake, hcases, watchdog=600), 'handshake')
     c = rep.counters
+    rep.floor('handshakes_suspended', c['handshakes_suspended'], 200)
+    rep.floor('handshakes_ended_good', c['handshakes_ended_good'], 50)
+    rep.floor('handshakes_ended_bad', c['handshakes_ended_bad'], 20)
     rep.floor('peer_lists_checked', c['peer_lists_checked'], 5000)
     rep.floor('state_changes_between_requests', c['state_changes_between_requests'], 200)
     rep.floor('peer_tuples_checked', c['peer_tuples_checked'], 20000)
@@ -399,7 +559,9 @@ def run(tier, seed, replay=None):
              'independent address-class table and hostname grammar, bucket and onion bounds recomputed independently. (b) '
              'Peer.peers_from_features and PeerManager.on_add_peer (peer discovery on, real getaddrinfo) on generated JSON feature '
              'dictionaries (wire round-tripped): never raise, ports None or 1..65535, is_public implies independent validity '
-             '(ambiguous hosts - underscores, trailing dot, non-ASCII, LOCALHOST - are counted, not judged). distinct = populations + '
+             '(ambiguous hosts - underscores, trailing dot, non-ASCII, LOCALHOST - are counted, not judged). (c) the real '
+             '_should_drop_peer/_verify_peer over a scripted in-memory session, suspended at a chosen request: the peer list is requested '
+             'while never-verified / stale / due peers are mid-handshake and after each handshake ends well, badly or unreachable. distinct = populations + '
              '(host, ports) outcomes',
         assumptions=['ipaddress parsing of literals', 'bool True accepted as port 1 (it is an in-range int)',
-                     'no outgoing connections are made (peer monitoring stubbed on the instance)'])
+                     'no outgoing connections are made (peer monitoring stubbed on the instance; handshakes run over a scripted in-memory session)'])
